@@ -193,7 +193,10 @@ func c09ModelFormat(c *Ctx, or *Oracle, w *c09Watch, inputs [][]byte) {
 			}
 		}
 	}
-	for _, src := range inputs {
+	for i, src := range inputs {
+		if !c.Thorough() && i%2 == 1 && len(src) <= 4000 {
+			continue // quick tier: every other generated input (the boundary tables, the grid and the nesting sweeps are all kept)
+		}
 		jobs = append(jobs, job{src, "", "", "validpda"})
 		if len(src) > 4000 {
 			// nesting sweeps: Compact only (the indented form is quadratic in the depth)
